@@ -114,6 +114,7 @@ theorem mono_bindFun (ex : Nat → Prop) (r : Nat) (f : Fun) (s : State) : Mono 
   · exact Mono.of_eq (by simp)
   · exact Mono.refl _ _
   · exact mono_setParentIfNone _ _ _ _
+  · exact Mono.refl _ _
 
 theorem mono_unbindFun (ex : Nat → Prop) (r : Nat) (f : Fun) (s : State) : Mono ex s (unbindFun r f s) := by
   unfold unbindFun
@@ -124,6 +125,7 @@ theorem mono_unbindFun (ex : Nat → Prop) (r : Nat) (f : Fun) (s : State) : Mon
   · exact Mono.of_eq (by simp)
   · exact Mono.refl _ _
   · exact mono_unsetParentIf _ _ _ _
+  · exact Mono.refl _ _
 
 theorem mono_weakNotify (ex : Nat → Prop) (r : Nat) (s : State) : Mono ex s (weakNotify r s) := by
   unfold weakNotify
@@ -154,6 +156,16 @@ theorem mono_dropFn (ex : Nat → Prop) (s : State) (r : Nat) (R : Rep) (f : Fun
     · exact .inr (.inl g)
     · simp only [State.setRep, if_neg hxr] at hX
       exact .inr (.inr ⟨X, hX, g1, g2⟩)
+
+/-- `~connection`: only a registration list changes -/
+theorem mono_killConn (ex : Nat → Prop) (c : Nat) (s : State) : Mono ex s (killConn c s) := by
+  unfold killConn slotRemCb
+  refine Mono.trans ?_ (Mono.of_eq rfl)
+  split
+  · exact Mono.refl _ _
+  · split
+    · exact Mono.refl _ _
+    · exact mono_modRep _ _ _ _ (fun _ => rfl) (fun _ => rfl)
 
 def noEx : Nat → Prop := fun _ => False
 
@@ -199,7 +211,11 @@ theorem destroyRep_spec : ∀ (k r : Nat) (s : State),
           · exact absurd g id
           · rw [← g]; exact hself X hX
         split
-        · exact fin _ (Mono.refl _ _)
+        · split
+          · exact fin _ (Mono.refl _ _)
+          · split
+            · exact fin _ (Mono.refl _ _)
+            · exact fin _ (mono_killConn _ _ _)
         · split
           · exact fin _ (Mono.refl _ _)
           · split
@@ -283,7 +299,8 @@ theorem mono_deleteRepWithCheck (ex : Nat → Prop) (v : Nat) (s : State) :
     simp only []
     split
     · refine Mono.strengthen (r := r) ?_ (deleteRep_gone _ _)
-      exact ((mono_repDisconnect r s).trans (Mono.of_eq (by simp))).trans (mono_deleteRep _ _ _)
+      exact ((mono_repDisconnect r s).trans (Mono.of_eq (by simp))).trans
+        ((mono_weakNotify _ _ _).trans (mono_deleteRep _ _ _))
     · rename_i hn
       refine Mono.strengthen (r := r) (mono_repDisconnect r s) ?_
       cases hx : (repDisconnect r s).reps r with
@@ -319,6 +336,7 @@ theorem mono_exchangeRep (ex : Nat → Prop) (d n : Nat) (s : State) : Mono ex s
   · exact Mono.of_eq (by simp)
   · simp only []
     refine Mono.trans ?_ (mono_deleteRep _ _ _)
+    refine Mono.trans ?_ (mono_weakNotify _ _ _)
     refine Mono.trans ?_ (Mono.of_eq (modSlot_reps _ _ _))
     exact mono_modRep _ _ _ _ (fun _ => rfl) (fun _ => rfl)
 
@@ -397,6 +415,7 @@ theorem keepLow_bindFun (r : Nat) (f : Fun) (s : State) : KeepLow s (bindFun r f
   · exact KeepLow.of_eq (by simp) (by simp)
   · exact KeepLow.refl _
   · exact keepLow_setParentIfNone _ _ _
+  · exact KeepLow.refl _
 
 theorem keepLow_allocRep (R : Rep) (s : State) : KeepLow s (allocRep R s) := by
   refine ⟨Nat.le_succ _, fun x hx => ?_⟩
